@@ -31,8 +31,10 @@ class Work:
     """scratch directory, removed on exit"""
 
     def __init__(self, name):
+        import atexit
         os.makedirs(WORKROOT, exist_ok=True)
         self.dir = tempfile.mkdtemp(prefix=name + ".", dir=WORKROOT)
+        atexit.register(self.cleanup)
 
     def path(self, *a):
         return os.path.join(self.dir, *a)
